@@ -39,6 +39,8 @@ def shards(tier, seed):
         for i in range(parts):
             out.append(("prod_%s_%d" % (c.name, i), dict(kind="prod", cname=c.name, part=i, parts=parts, reps=1 if q else 4)))
     out.append(("near_recursion_limit", dict(kind="near_limit")))
+    for i in range(2 if q else 8):
+        out.append(("transient_curves_%d" % i, dict(kind="transient", rounds=60 if q else 600)))
     return out
 
 
@@ -163,6 +165,42 @@ def run(ctx, name, kind, **kw):
     rng = ctx.rng
     if kind == "near_limit":
         return sigs.near_limit(ctx, rng, ["NIST521p", "BRAINPOOLP512r1", "NIST192p"], ['sign'])
+    if kind == "transient":
+        # curve objects that come and go (an application building Curve objects per request): every signature is still the one the
+        # CURRENT curve's order gives - nothing may be remembered about "the curve at this address"; and keys of a custom curve that
+        # carries a registered OID keep their own domain through pickle / copy
+        import copy
+        import gc
+        import pickle
+        from vf import toy
+        ts = sigs.toy_prime_curves(7, 61)
+        rng.shuffle(ts)
+        named = [lib.BY_NAME[x] for x in ("NIST192p", "SECP112r2", "NIST521p")]
+        for rd in range(kw["rounds"]):
+            t = ts[rd % len(ts)]
+            dom = t.domain()
+            oid = tuple(named[rd % 3].oid) if rd % 2 else (1, 3, 132, 0, 247)
+            curve = lib.mk_toy_curve(dom, name="transient_%d" % rd, oid=oid)
+            n = dom.n
+            d = rng.randrange(1, n)
+            sk = ecdsa.SigningKey.from_secret_exponent(d, curve, hashlib.sha256)
+            how = ("as made", "pickled", "deep-copied", "copied")[rd % 4]
+            sk_use = {"as made": lambda: sk, "pickled": lambda: pickle.loads(pickle.dumps(sk)), "deep-copied": lambda: copy.deepcopy(sk), "copied": lambda: copy.copy(sk)}[how]()
+            ctx.count("transient_curve_keys." + how.replace(" ", "_").replace("-", "_"))
+            for _i in range(3):
+                k = rng.randrange(1, n)
+                dg = bytes(rng.getrandbits(8) for _ in range(rng.choice((1, 2, 5))))
+                one(ctx, sk_use, curve, dom, d, k, dg, rng.random() < 0.8, "transient_curve", "%s|%d" % (how, n.bit_length()))
+            check_pubkey(ctx, sk_use, curve, dom, d, "transient|%s" % how)
+            if rd % 2:
+                # also a named curve's key in between, through the same entry points
+                c = named[rd % 3]
+                dm = lib.dom_of(c)
+                skn = ecdsa.SigningKey.from_secret_exponent(rng.randrange(1, dm.n), c, hashlib.sha256)
+                one(ctx, skn, c, dm, int(skn.privkey.secret_multiplier), rng.randrange(1, dm.n), bytes(rng.getrandbits(8) for _ in range(dm.nbytes() + 3)), True, "transient_curve", "named|%s" % c.name)
+            del sk, sk_use, curve
+            gc.collect()
+        return
     if kind == "toy":
         from vf import toy
         t = toy.toy(*kw["key"])
